@@ -53,6 +53,8 @@ pub struct GenCfg {
     /// Run to quiescence after every step (no partial scheduling): makes the outcome a function
     /// of the event order only, as the differential framing oracle needs.
     pub always_settle: bool,
+    /// Rich, shuffled property sets and boundary lengths on inbound packets (C02).
+    pub rich: bool,
 }
 
 impl GenCfg {
@@ -102,6 +104,7 @@ impl GenCfg {
             preset_ids: None,
             ack_eagerness: rng.range(1, 6) as u32,
             always_settle: false,
+            rich: false,
         }
     }
 
@@ -281,7 +284,12 @@ impl<'a> Gen<'a> {
         let mut props = Props::new();
         if self.cfg.ack_props && self.rng.chance(2, 3) {
             let u = self.uniq();
-            props.push(pid::REASON_STRING, PropVal::Str(format!("rs{u}")));
+            let mut rs = format!("rs{u}");
+            if self.cfg.rich && self.rng.chance(1, 6) {
+                let n = *self.rng.pick(&[120usize, 127, 128, 16_383, 16_384]);
+                rs.push_str(&"r".repeat(n));
+            }
+            props.push(pid::REASON_STRING, PropVal::Str(rs));
             if self.rng.coin() {
                 props.push(pid::USER_PROPERTY, PropVal::Pair(format!("k{u}"), format!("v{u}")));
                 if self.rng.chance(1, 3) {
@@ -418,11 +426,15 @@ impl<'a> Gen<'a> {
             }
         }
         let mut props = Props::new();
-        if self.rng.chance(1, 4) {
-            props.push(pid::CONTENT_TYPE, PropVal::Str(format!("ct{n}")));
-        }
-        if self.rng.chance(1, 4) {
-            props.push(pid::USER_PROPERTY, PropVal::Pair("n".into(), format!("{n}")));
+        if self.cfg.rich {
+            props = crate::codec::rich_publish_props(self.rng);
+        } else {
+            if self.rng.chance(1, 4) {
+                props.push(pid::CONTENT_TYPE, PropVal::Str(format!("ct{n}")));
+            }
+            if self.rng.chance(1, 4) {
+                props.push(pid::USER_PROPERTY, PropVal::Pair("n".into(), format!("{n}")));
+            }
         }
         let plen = if self.cfg.big_payloads && self.rng.chance(1, 4) { self.rng.urange(480, 1100) } else { self.rng.urange(0, 10) };
         let mut payload = format!("m{n}:").into_bytes();
